@@ -252,6 +252,7 @@ class FakeDriver(CRTPDriver):
         self.needs_resending = False
         self.rxq = []
         self.closed = False
+        self.dead = False
         self.budget = 0
 
     def connect(self, uri, radio_link_statistics_callback, link_error_callback):
@@ -263,6 +264,15 @@ class FakeDriver(CRTPDriver):
         self.err = link_error_callback
         p.drivers.append(self)
         self.session = len(p.drivers)
+        if p.error_in_connect:
+            # the driver's own thread reports a link error while connect() has not returned yet; that driver is dead afterwards
+            p.error_in_connect = False
+            self.dead = True
+            S.stack.append('driver')
+            try:
+                link_error_callback('link error from the driver thread during connect()')
+            finally:
+                S.stack.pop()
 
     def send_packet(self, pk):
         p = FakeDriver.plan
@@ -270,6 +280,8 @@ class FakeDriver(CRTPDriver):
         if self.closed:
             p.violations.append('send on a closed driver')
             return
+        if self.dead:
+            return                      # nothing is delivered and nothing comes back
         if p.fault_in_send is not None and p.sends == p.fault_in_send:
             p.fault_in_send = None
             p.fault_task = cur()
@@ -312,4 +324,5 @@ class Plan:
         self.hold_next = False
         self.held = []
         self.connect_raises = False
+        self.error_in_connect = False
         self.violations = []
